@@ -9,11 +9,11 @@ _g('ec_write_byte')
 _g('ec_write_byte_at_end')
 _g('ec_enc_carry_out', replace=['ec_write_byte'])
 _g('ec_enc_normalize', replace=['ec_enc_carry_out'], unwind=5, cls='F')
-_g('ec_encode', replace=['ec_enc_normalize'])
-_g('ec_encode_bin', replace=['ec_enc_normalize'])
+_g('ec_encode', replace=['ec_enc_normalize'], timeout=3600, tier='off')  # range facts need multiplication/division reasoning: no result within 1 h
+_g('ec_encode_bin', replace=['ec_enc_normalize'], timeout=3600, tier='off')
 _g('ec_enc_bit_logp', replace=['ec_enc_normalize'])
-_g('ec_enc_icdf', replace=['ec_enc_normalize'])
-_g('ec_enc_icdf16', replace=['ec_enc_normalize'])
+_g('ec_enc_icdf', replace=['ec_enc_normalize'], timeout=3600, tier='off')
+_g('ec_enc_icdf16', replace=['ec_enc_normalize'], tier='off')
 _g('ec_enc_bits', replace=['ec_write_byte_at_end'], unwind=6, cls='F')
 _g('ec_enc_uint', replace=['ec_encode', 'ec_enc_bits', 'ec_read_byte', 'ec_read_byte_from_end', 'ec_dec_normalize'])
 _g('ec_enc_patch_initial_bits')
@@ -33,15 +33,30 @@ _d('ec_dec_normalize', replace=['ec_read_byte'], unwind=5, cls='F')
 _d('ec_dec_bit_logp', replace=['ec_dec_normalize'])
 _d('ec_dec_bits', replace=['ec_read_byte_from_end'], unwind=6, cls='F')
 _d('ec_dec_init', replace=['ec_read_byte', 'ec_dec_normalize'])
-_d('ec_dec_icdf', replace=['ec_dec_normalize'])
+_d('ec_dec_icdf', replace=['ec_dec_normalize'], timeout=3600, tier='off')
 _LS = dict(cls='P', tu='C08_lockstep.c', unwind=5, canary='real', timeout=600,
            replace=['ec_enc_carry_out', 'ec_read_byte', 'ec_read_byte_from_end', 'ec_write_byte_at_end'])
 GROUPS += [
  dict(_LS, name='ls_bit_logp', entry='h_ls_bit_logp', functions=['ec_enc_bit_logp', 'ec_dec_bit_logp', 'ec_tell', 'ec_tell_frac'], what='lock-step of ec_enc_bit_logp / ec_dec_bit_logp (real bodies, symbolic states)'),
- dict(_LS, name='ls_bin', entry='h_ls_bin', functions=['ec_encode_bin', 'ec_decode_bin', 'ec_dec_update'], what='lock-step of ec_encode_bin / ec_decode_bin + ec_dec_update'),
- dict(_LS, name='ls_freq', entry='h_ls_freq', functions=['ec_encode', 'ec_decode', 'ec_dec_update'], what='lock-step of ec_encode / ec_decode + ec_dec_update (ft <= 2^16)'),
+ dict(_LS, name='ls_bin', tier='off', entry='h_ls_bin', functions=['ec_encode_bin', 'ec_decode_bin', 'ec_dec_update'], what='lock-step of ec_encode_bin / ec_decode_bin + ec_dec_update'),
+ dict(_LS, name='ls_freq', tier='off', entry='h_ls_freq', functions=['ec_encode', 'ec_decode', 'ec_dec_update'], what='lock-step of ec_encode / ec_decode + ec_dec_update (ft <= 2^16)'),
  dict(_LS, name='ls_bits', entry='h_ls_bits', unwind=6, functions=['ec_enc_bits', 'ec_dec_bits'], what='lock-step of ec_enc_bits / ec_dec_bits'),
  dict(name='tell_frac', cls='P', tu='C08_lockstep.c', entry='h_tell_frac', dfcc=False, unwind=5, timeout=300, functions=['ec_tell_frac', 'ec_tell'],
       what='ec_tell_frac table version == reference recurrence; bracketed by 8*ec_tell, every normalised rng'),
 ]
-META = {'enforced_elsewhere': ['ec_write_byte', 'ec_write_byte_at_end', 'ec_enc_carry_out', 'ec_enc_normalize', 'ec_encode', 'ec_enc_bits', 'ec_read_byte', 'ec_read_byte_from_end', 'ec_dec_normalize']}
+for _b in range(1, 17):
+    GROUPS.append(dict(_LS, name='ls_bin_b%d' % _b, entry='h_ls_bin', defines=['-DVERIF_BITS=%d' % _b], timeout=3600, tier='quick' if _b == 1 else 'thorough',
+        functions=['ec_encode_bin', 'ec_decode_bin', 'ec_dec_update'], what='lock-step + invariants of ec_encode_bin / ec_decode_bin + ec_dec_update, bits = %d' % _b))
+_INV = dict(cls='B', tu='C08_inversion_b.c', entry='h_inversion', dfcc=False, canary='real', expect_canaries=2,
+            functions=['ec_enc_init', 'ec_encode', 'ec_encode_bin', 'ec_enc_bit_logp', 'ec_enc_icdf', 'ec_enc_uint', 'ec_enc_bits', 'ec_enc_done',
+                       'ec_dec_init', 'ec_decode', 'ec_decode_bin', 'ec_dec_update', 'ec_dec_bit_logp', 'ec_dec_icdf', 'ec_dec_uint', 'ec_dec_bits', 'ec_tell', 'ec_tell_frac'])
+_KN = {0: 'bit', 1: 'bin', 2: 'icdf', 3: 'bits', 4: 'uint', 5: 'freq'}
+for _a in range(6):
+    for _b in range(6):
+        _quick = (_a, _b) in ((0, 3), (1, 2), (3, 1), (2, 0))
+        GROUPS.append(dict(_INV, name='inv_%s_%s' % (_KN[_a], _KN[_b]), unwind=10, timeout=3600, mem_gb=20, tier='quick' if _quick else 'thorough',
+            defines=['-DVERIF_K0=%d' % _a, '-DVERIF_K1=%d' % _b, '-DVERIF_STORAGE=5'],
+            bounds='2 operations (%s then %s) with symbolic parameters and values, buffer of 5 bytes, ft <= 256 for division-based kinds' % (_KN[_a], _KN[_b]),
+            what='encode -> ec_enc_done -> decode: values, tell, tell_frac and rng agree; done cannot fail within budget'))
+# ec_encode is used through its contract by ec_enc_uint but its own range facts are NOT discharged (tier off): it is reported as an assumed contract
+META = {'enforced_elsewhere': ['ec_write_byte', 'ec_write_byte_at_end', 'ec_enc_carry_out', 'ec_enc_normalize', 'ec_enc_bits', 'ec_read_byte', 'ec_read_byte_from_end', 'ec_dec_normalize']}
